@@ -9,6 +9,9 @@
 #ifndef C20_HAS_BF_MEMPTR_RV
     #define C20_HAS_BF_MEMPTR_RV 1 // likewise: bind_front(pointer to member, object) called through an rvalue wrapper compiles
 #endif
+#ifndef C20_HAS_BF_MEMPTR_LV
+    #define C20_HAS_BF_MEMPTR_LV 1 // likewise: bind_front(&S::f /* & qualified */, object) called through an lvalue wrapper compiles
+#endif
 #ifndef C20_HAS_TCAT0
     #define C20_HAS_TCAT0 1 // likewise: etl::tuple_cat() with no argument compiles
 #endif
@@ -1628,7 +1631,10 @@ inline std::string bf_line(Line const& l)
                 else return q == 0 ? g() : std::as_const(g)();
             };
             if (!rv_ok && q >= 2) return "nc";
-            if (o == "obj") r = go(L::bind_front(&Sc::dm, s));
+            if (o == "obj") {
+                if constexpr (!L::is_etl || C20_HAS_BF_MEMPTR_LV) r = go(L::bind_front(&Sc::dm, s));
+                else return "nc";
+            }
             else if (o == "ptr") r = go(L::bind_front(&Sc::dm, &s));
             else if (o == "cptr") r = go(L::bind_front(&Sc::dm, cps));
             else if (o == "refw") r = go(L::bind_front(&Sc::dm, L::ref(s)));
@@ -1641,7 +1647,10 @@ inline std::string bf_line(Line const& l)
             if (!rv_ok && q >= 2) return "nc";
             if (o == "obj") {
                 switch (q) {
-                case 0: { auto g = L::bind_front(static_cast<pmf_l>(&Sc::q), s); r = g(xv); break; }
+                case 0:
+                    // (a tree whose lvalue call hands the bound object on as an rvalue cannot compile this call: "nc")
+                    if constexpr (!L::is_etl || C20_HAS_BF_MEMPTR_LV) { auto g = L::bind_front(static_cast<pmf_l>(&Sc::q), s); r = g(xv); break; }
+                    else return "nc";
                 case 1: { auto const g = L::bind_front(static_cast<pmf_c>(&Sc::q), s); r = g(xv); break; }
                 default:
                     if constexpr (rv_ok) {
